@@ -17,7 +17,7 @@ pub fn def() -> PropDef {
 }
 
 fn streams(t: Tier) -> Vec<StreamDef> {
-    vec![st("reader_ops", t.n(60_000, 3_000_000, 300, 20_000), false), st("writer_ops", t.n(60_000, 3_000_000, 300, 20_000), false), st("bytes_overrun", t.n(41 * 45, 41 * 45, 100, 41 * 45), true)]
+    vec![st("reader_ops", t.n(60_000, 3_000_000, 200, 20_000), false), st("writer_ops", t.n(60_000, 3_000_000, 200, 20_000), false), st("bytes_overrun", t.n(41 * 45, 41 * 45, 64, 41 * 45), true)]
 }
 
 fn floors(t: Tier) -> Vec<(String, u64)> {
